@@ -104,6 +104,27 @@ func runReq(c reqCase) harness.Result {
 				if re := v.(packet.Request).Bytes(); !bytes.Equal(re, frame) {
 					return harness.Fail("%s: decoded request re-encodes to %x, original %x", p.Name, re, frame)
 				}
+				// a second request of the same unit and function is decoded while the first is still held (two connections, or a queue of
+				// decoded requests): the first stays what it is
+				r2 := r
+				r2.Tx ^= 0x0155
+				if r.FC != 17 {
+					r2.Addr ^= 0x0001
+				}
+				if spec.LegalRequest(r2) == nil {
+					sib := spec.EncodeRequest(c.Framing, r2)
+					if k == 1 {
+						sib = sib[:len(sib)-2]
+					}
+					v2, _ := p.Fn(sib)
+					if !reflect.DeepEqual(normalize(v), normalize(q)) {
+						return harness.Fail("%s: the request decoded from %x reads %+v after another request (%x) was decoded: decoded requests share storage", p.Name, in, v, sib)
+					}
+					if re := v.(packet.Request).Bytes(); !bytes.Equal(re, frame) {
+						return harness.Fail("%s: the request decoded from %x re-encodes to %x after another request (%x) was decoded", p.Name, in, re, sib)
+					}
+					_ = v2
+				}
 			}
 		}
 		if known != "" {
